@@ -71,7 +71,11 @@ def _translate_chunk(chunk, metatypes, deadline):
         for m in metatypes:
             args += ["--metatypes", m]
         data = "".join(json.dumps(r) + "\n" for r in todo)
-        p = subprocess.run(args, input=data, stdout=subprocess.PIPE, stderr=subprocess.PIPE, text=True)
+        scratch = tempfile.mkdtemp(prefix="vh-tmp-")        # file-based requests are materialised here; removed even after a watchdog exit
+        try:
+            p = subprocess.run(args, input=data, stdout=subprocess.PIPE, stderr=subprocess.PIPE, text=True, env=dict(os.environ, TMPDIR=scratch))
+        finally:
+            shutil.rmtree(scratch, ignore_errors=True)
         n = 0
         hung = None
         for line in p.stdout.split("\n"):      # not splitlines(): U+2028, U+0085, FF... may occur inside strings
